@@ -2141,13 +2141,26 @@ static bool parse_ignored(TokenContext &ctx, Chunk &pc)
       // end of file?
       return(false);
    }
+   // the directive that ends an asm region starts its line: the same words inside a
+   // string or a comment of a region line do not end the region
+   size_t first = 0;
+
+   while (  first < pc.GetStr().size()
+         && (  pc.GetStr()[first] == ' '
+            || pc.GetStr()[first] == '\t'))
+   {
+      first++;
+   }
+   const bool at_directive = (  first < pc.GetStr().size()
+                             && pc.GetStr()[first] == '#');
 
    // HACK: turn on if we find '#endasm' or '#pragma' and 'endasm' separated by blanks
-   if (  (  (  (pc.GetStr().find("#pragma ") >= 0)
-            || (pc.GetStr().find("#pragma	") >= 0))
-         && (  (pc.GetStr().find(" endasm") >= 0)
-            || (pc.GetStr().find("	endasm") >= 0)))
-      || (pc.GetStr().find("#endasm") >= 0))
+   if (  at_directive
+      && (  (  (  (pc.GetStr().find("#pragma ") >= 0)
+               || (pc.GetStr().find("#pragma	") >= 0))
+            && (  (pc.GetStr().find(" endasm") >= 0)
+               || (pc.GetStr().find("	endasm") >= 0)))
+         || (pc.GetStr().find("#endasm") >= 0)))
    {
       cpd.unc_off = false;
       ctx.restore();
